@@ -981,3 +981,14 @@ func valuePos(v ssa.Value) token.Pos {
 }
 
 func sortStrings(s []string) { sort.Strings(s) }
+
+// describePointee describes what a pointer argument points to: for the
+// address of a local with one store, the stored value.
+func describePointee(v ssa.Value) string {
+	if a, ok := v.(*ssa.Alloc); ok {
+		if st := storesTo(a); len(st) == 1 {
+			return describe(st[0])
+		}
+	}
+	return describe(v)
+}
